@@ -124,6 +124,26 @@ Theorem C19_history_cached_peer : forall own c pre mid node e v,
 Proof. exact history_cached_peer. Qed.
 Print Assumptions C19_history_cached_peer.
 
+(* ---- the cache key is the identity of the RECORD OBJECT the call is made with (the code keys by *enode.Node pointer),
+   named rec_key (node id) (record sequence number).  The answer for a record depends only on that record's pv entry, the
+   own list and earlier calls WITH THAT RECORD - not on what was negotiated with any other record, other records of the
+   SAME node (an older or a republished one) included. *)
+Theorem C19_history_record_independent : forall own c pre id seq e,
+  seq < 18446744073709551616 ->
+  Forall (fun st => exists i s, fst st = rec_key i s /\ s < 18446744073709551616 /\ (i, s) <> (id, seq)) pre ->
+  fst (gos_history own c (pre ++ [(rec_key id seq, e)])) =
+  fst (gos_history own c pre) ++ [fst (get_or_store own c (rec_key id seq) e)].
+Proof. exact history_record_independent. Qed.
+Print Assumptions C19_history_record_independent.
+
+(* upgrade / downgrade: a node seen with pv = old republishes with pv = new: the new record is negotiated from `new` alone *)
+Theorem C19_history_republished_record : forall own id s1 s2 old new,
+  s1 < 18446744073709551616 -> s2 < 18446744073709551616 -> s1 <> s2 ->
+  fst (gos_history own empty_cache [(rec_key id s1, PvList old); (rec_key id s2, PvList new)]) =
+  [negotiate own old; negotiate own new].
+Proof. exact history_republished_record. Qed.
+Print Assumptions C19_history_republished_record.
+
 Example C19_nonvacuous :
   find_biggest_same [0; 1] [1; 2; 0] = (1, None) /\
   find_biggest_same [0; 1] [2; 3] = (0, Some E_NO_COMMON) /\
